@@ -52,9 +52,12 @@ func (d *Delay) UnmarshalXML(dec *xml.Decoder, start xml.StartElement) error {
 	for _, attr := range start.Attr {
 		switch attr.Name.Local {
 		case "from":
-			d.From, err = jid.Parse(attr.Value)
-			if err != nil {
-				return err
+			// The encoder writes an empty attribute for the zero JID.
+			if attr.Value != "" {
+				d.From, err = jid.Parse(attr.Value)
+				if err != nil {
+					return err
+				}
 			}
 			foundFrom = true
 		case "stamp":
